@@ -15,6 +15,7 @@ exactly divisible case) and to carry the code's own results into the log.
 import json
 import random
 from fractions import Fraction
+import numpy
 
 from .. import tlc, tlaval, bits
 from ..common import Check, import_repo
@@ -156,7 +157,11 @@ def perform(mods, call):
             ev.update(op="taylor", P=enc_list(P), z0=enc(z0), size=-1 if size is None else size, r=[])
             if size is not None:
                 kw["size"] = size
-            out = poly.taylorat(P, z0, **kw)
+            # the expansion point phrased as the caller may: a Fraction, a Python float, a NumPy scalar of any width (dyadic values:
+            # each phrasing denotes exactly the recorded rational)
+            zf = call.get("z0form", "frac")
+            z0arg = z0 if zf == "frac" else float(z0) if zf == "pyfloat" else getattr(numpy, zf)(float(z0))
+            out = poly.taylorat(P, z0arg, **kw)
             ev["r"] = enc_list(out)
         elif fn == "divmod":
             P, D = list(call["P"]), list(call["D"])
@@ -339,7 +344,10 @@ def calls_of_case(case, dr):
     elif fn == "taylorat":
         z0 = {"z_zero": Fraction(0), "z_int": Fraction(r.choice([-1, 1]) * r.randint(1, 5)), "z_frac": dr.q()}[form]
         size = {1: None, 2: r.randint(0, deg), 3: deg + 1, 4: deg + 1 + r.randint(1, 3)}[aux]
-        calls.append(dict(impl="poly", fn=fn, P=od(dr.coeffs(deg, zeros)), z0=z0, size=size, reverse=rev,
+        zf = r.choice(["frac", "frac", "pyfloat", "float64", "float32", "float16"])
+        if zf != "frac":
+            z0 = Fraction(r.randint(-40, 40), 2 ** r.randint(0, 4)) if form != "z_zero" else Fraction(0)
+        calls.append(dict(impl="poly", fn=fn, P=od(dr.coeffs(deg, zeros)), z0=z0, z0form=zf, size=size, reverse=rev,
                           omit_reverse=(not rev) and r.random() < 0.5))
     elif fn == "divmod":
         dd = {"deg0": 0, "deg1": 1, "deg2": 2, "half": deg // 2, "same": deg, "bigger": deg + r.randint(1, 3)}[form]
